@@ -439,6 +439,9 @@ def check_b(ck, repo):
     # the wrapping into tuples happens before the section: bindings made outside the
     # n-gram guard other than the unpacking of ngram_range are not part of the comparison
     for k in ("outer", "inner", "window", "receiver", "guards", "returns"):
+        if k == "guards" and isinstance(a[k], list) and isinstance(b[k], list) and len(a[k]) != len(b[k]):
+            ck.violated("C14.b", fi, f"n-gram section: guards = {str(a[k])[:120]}", f"the append of an n-gram is guarded by {len(a[k])} condition(s) where {owner}._word_ngrams has {len(b[k])}: {a[k]} vs {b[k]}: some windows are not emitted (or emitted where scikit-learn emits none), so the n-grams of a document are not scikit-learn's")
+            continue
         if a[k] != b[k] and "__it__(" in str(a[k]):
             ck.unknown("C14.b", fi, f"n-gram section: {k} = {str(a[k])[:70]}", "a loop variable reaches this expression through a helper's parameter: the expansion cannot name its value, nothing is decided about it")
             continue
